@@ -580,6 +580,19 @@ def q_r6_serialize(p: Project, rep: Report):
                 details["closed-writer-no-short-empty-tags"] = f"{text(body)[:90]} writes an aggregate without children as <X />, which the parser does not read as an empty aggregate (its tag pattern takes ' /' as part of the name): such a document no longer parses"
             else:
                 undec.add(f"ET.tostring method {text(meth)} not constant")
+            # ... and must write the characters themselves: with an encoding that cannot hold a character ElementTree
+            # writes a numeric character reference (&#233;), which the reader's entity table does not decode
+            enc = kw.get("encoding", body.args[1] if len(body.args) > 1 else None)
+            enc_v = value_on_path(q, cfg, enc, upto=len(q.nodes) - 1) if enc is not None else None
+            if isinstance(enc_v, ast.Constant) and isinstance(enc_v.value, str):
+                full = enc_v.value.lower().replace("-", "_") in ("utf_8", "utf8", "unicode", "utf_16", "utf_32")
+                if not full:
+                    verdicts["closed-writer-writes-characters"] = False
+                    details["closed-writer-writes-characters"] = f"on a path the body is written with ET.tostring(encoding={enc_v.value!r}): characters outside that encoding go out as numeric character references (caf&#233;), which the library's reader hands to the model as literal text - the value read back differs from the one written"
+                else:
+                    verdicts.setdefault("closed-writer-writes-characters", True)
+            elif enc is not None:
+                undec.add(f"ET.tostring encoding {text(enc)[:40]} not constant on a path")
         # ---- indent
         for nid in q.nodes:
             n = cfg.nodes[nid]
